@@ -224,6 +224,13 @@ def main(argv=None):
     if ck.cover["table_entries_without_subcommand"]:
         raise tlc.MachineryError("LibCall table names sub-commands the tool does not have: %r"
                                  % ck.cover["table_entries_without_subcommand"])
+    # chains can blow a formula up to millions of literals: those pairs are counted, not judged
+    def size(r):
+        return max(sum(len(c) if isinstance(c, list) else len(c["terms"])
+                       for c in x.get("clauses", x.get("constraints", []))) for x in (r["a"], r["b"]))
+    huge = [r["id"] for r in recs if size(r) > 150000]
+    recs = [r for r in recs if r["id"] not in set(huge)]
+    ck.count("pairs_too_large_to_judge", len(huge))
     ok_pairs = sum(1 for r in recs if r["a"]["outcome"] == "ok" and r["b"]["outcome"] == "ok")
     ck.count("table_formula_commands", len(cmds))
     ck.count("table_transformations", len(trans))
